@@ -51,6 +51,7 @@ type replay struct {
 	Sig      string          `json:"sig"`
 	Msg      string          `json:"msg"`
 	Trace    []string        `json:"trace,omitempty"`
+	Race     bool            `json:"race_build,omitempty"` // observed by (and to be replayed on) the race-detector build
 	shard    int
 }
 
@@ -90,10 +91,11 @@ type output struct {
 type plan struct {
 	shardsQuick, shardsThorough int
 	race                        bool
+	racePass                    string // one scenario run a second time on the race-detector build (unsynchronised accesses have no scheduling point: the explorer alone cannot interleave them)
 	deadlineQuick, deadlineThor time.Duration
 }
 
-var plans = map[string]plan{"C20": {race: true}}
+var plans = map[string]plan{"C20": {race: true}, "C01": {racePass: "burst3-cold"}}
 
 func planOf(id string) plan {
 	p, ok := plans[id]
@@ -409,6 +411,42 @@ func check(id, tier string) int {
 		}(i)
 	}
 	wg.Wait()
+	binOf := func(v *replay) string { return bin }
+	if pl.racePass != "" && !pl.race {
+		rbin := build(true)
+		binOf = func(v *replay) string {
+			if v.Race {
+				return rbin
+			}
+			return bin
+		}
+		routs := make([]*output, n)
+		rerrs := make([]string, n)
+		for i := 0; i < n; i++ {
+			wg.Add(1)
+			go func(i int) {
+				defer wg.Done()
+				o, se, err := runWorker(rbin, []string{"-prop", id, "-tier", tier, "-shard", strconv.Itoa(i), "-nshards", strconv.Itoa(n), "-seed", strconv.FormatInt(seed, 10), "-deadline", dl.String(), "-only", pl.racePass}, gmp)
+				if err != nil {
+					if len(se) > 4000 {
+						se = se[len(se)-4000:]
+					}
+					rerrs[i] = fmt.Sprintf("shard %d (race pass): %v\n%s", i, err, se)
+					return
+				}
+				for _, sc := range o.Scenarios {
+					sc.Name += " [race-detector build]"
+				}
+				for _, v := range o.Violations {
+					v.Race = true
+				}
+				routs[i] = o
+			}(i)
+		}
+		wg.Wait()
+		outs = append(outs, routs...)
+		errs = append(errs, rerrs...)
+	}
 	shardErr := ""
 	for _, e := range errs {
 		if e != "" { // kept for post-mortems: the console shows the first error only
@@ -554,7 +592,7 @@ func check(id, tier string) int {
 			conf = 1 // the crash itself is the observation; its stack is the artefact
 		}
 		for i := 0; i < 5 && v.Sig != "process-crash"; i++ {
-			o, _, err := runWorker(bin, []string{"-replay", path}, gmp)
+			o, _, err := runWorker(binOf(v), []string{"-replay", path}, gmp)
 			if err == nil && len(o.Violations) > 0 {
 				conf++
 			}
@@ -581,7 +619,7 @@ func check(id, tier string) int {
 		}
 		again := 0
 		for i := 0; i < 2 && again == 0; i++ {
-			o, _, err := runWorker(bin, []string{"-prop", id, "-tier", tier, "-shard", strconv.Itoa(v.shard), "-nshards", strconv.Itoa(n), "-only", v.Scenario, "-deadline", dl.String()}, gmp)
+			o, _, err := runWorker(binOf(v), []string{"-prop", id, "-tier", tier, "-shard", strconv.Itoa(v.shard), "-nshards", strconv.Itoa(n), "-only", v.Scenario, "-deadline", dl.String()}, gmp)
 			if err == nil {
 				for _, w := range o.Violations {
 					if strings.TrimPrefix(w.Sig, "!") == v.Sig && w.Scenario == v.Scenario {
@@ -703,7 +741,7 @@ func main() {
 		}
 		var r replay
 		json.Unmarshal(b, &r)
-		bin := build(planOf(r.Property).race)
+		bin := build(planOf(r.Property).race || r.Race)
 		if r.Property == "C19" || r.Property == "C16" {
 			os.Setenv("PIKEMC_REALBIN", buildReal(bin))
 		}
